@@ -109,3 +109,29 @@ func ZZ_C10_rewrite(a []int) {
 	zzReach("rewrite")
 	zzWriteCheck(p, 0)
 }
+
+// ZZ_C10_bigwrite: a large packet of shape a against writers that accept
+// only the first k bytes, for k at every position of the first 40 bytes, in
+// the middle and at the end.
+func ZZ_C10_bigwrite(a []int) {
+	abs := zzGen(zzShapeOf(a))
+	p := zzBuild(abs)
+	var ok zzSink
+	n0, err0 := p.WriteTo(&ok)
+	zzReach("bigwrite")
+	zzAssert(err0 == nil && ok.calls == 1 && int(n0) == len(ok.b), "WriteTo of a large packet: one Write, truthful count")
+	zzOneFrameBytes(ok.b)
+	L := len(ok.b)
+	ks := []int{L / 2, L - 2, L - 1}
+	for k := 0; k < 40 && k < L; k++ {
+		ks = append(ks, k)
+	}
+	e := &zzErr{id: 3}
+	for _, k := range ks {
+		w := &zzShortW{k: k, e: e}
+		n, err := p.WriteTo(w)
+		zzAssert(err == error(e), "WriteTo does not return the writer's error")
+		zzAssert(int(n) == k, "WriteTo does not report the number of bytes the writer accepted")
+	}
+	zzEmitU("len", uint64(L))
+}
